@@ -130,6 +130,8 @@ func runC16(r *core.Run) {
 			// --- the same totals as the admin RPC server (mint/manager) reports them over its socket
 			if s.NOps%4 == 0 {
 				c16Admin(r, env, s, bal, csig)
+			} else if s.NOps%4 == 2 {
+				c16AdminPerKeyset(r, env, s, csig)
 			}
 			// --- info endpoint
 			info, err := env.M.RetrieveMintInfo()
